@@ -130,17 +130,27 @@ for t, b in [("u8", 2), ("u16", 3), ("u32", 5), ("u64", 9), ("u128", 17), ("bool
 C12("c12_roundtrip_ints", "quick", "encode/decode round trip, written length == mls_encoded_len, big-endian layout",
     "every value of u8,u16,u32,u64,u128,bool,[u8;5],Option<u16>,(u8,u32)", "all values", 18)
 for b, tier in [(3, "quick"), (4, "thorough"), (5, "thorough"), (6, "thorough")]:
-    for t in ["byte_vec", "vec_u8", "vec_u16", "vec_option_u8", "vec_vec_u8", "string"]:
+    for t in ["byte_vec", "vec_u8", "vec_u16", "vec_option_u8", "string"]:
         tt = tier
+        mem = "M"
         if b == 4 and t in ("byte_vec", "vec_u8"):
             tt = "quick"
-        if b == 6 and t in ("vec_vec_u8", "vec_option_u8", "string"):
-            continue  # did not finish inside 600 s / 20 GB when tried at B = 6
+        if t == "vec_option_u8":
+            # 13 GB / 300 s already at B = 3: thorough only, one at a time
+            tt, mem = "thorough", "X"
+            if b > 3:
+                continue
+        if b == 6 and t == "string":
+            continue  # did not finish inside 600 s when tried at B = 6
+        if b >= 5 and t != "byte_vec":
+            mem = "H"
         C12("c12_decode_any_%s_%d" % (t, b), tt, _DA + "; decoded element count bounded by the bytes consumed",
-            "%d symbolic bytes, symbolic length" % b, "B = %d" % b, b + 3, timeout_s=2400 if tt == "thorough" else 600)
+            "%d symbolic bytes, symbolic length" % b, "B = %d" % b, b + 3, timeout_s=2400 if tt == "thorough" else 600, mem=mem)
+# Vec<Vec<u8>> decode-any exceeded 19 GB even at B = 3 (nested heap vectors of symbolic size): not registered; the
+# nested case is covered by the round-trip harness only.
 C12("c12_decode_any_byte_vec_8", "thorough", _DA, "8 symbolic bytes, symbolic length", "B = 8", 11)
 C12("c12_decode_any_vec_array0_3", "quick", _DA + "; a vector of zero-sized items is rejected (zero-progress guard), no loop",
-    "3 symbolic bytes, symbolic length", "B = 3", 6)
+    "3 symbolic bytes, symbolic length", "B = 3", 6, mem="M")
 C12("c12_split_on_collection", "quick", "mls_decode_split_on_collection returns adjacent sub-slices of the input, the "
     "first of exactly the announced (shortest-form) length", "8 symbolic bytes, symbolic length", "B = 8", 10)
 for n in [0, 1, 3, 63, 64]:
@@ -329,14 +339,15 @@ for n in [0, 3, 4, 12, 16]:
       symbolic="nonce and guard bytes", bounds="nonce length %d" % n)
 H("c05_reuse_guard_injective", "c03_c05_framing.rs", ["C05"], "quick", unwind=20,
   what="two reuse guards give the same nonce iff they are equal (12-byte nonce)", symbolic="nonce, two guards", bounds="12-byte nonce")
-H("c05_ratchet_request_all_generations", "c05_ratchet_request.rs", ["C05", "C04"], "thorough", fs="fs_noooo", unwind=24, mem="H",
-  stubs=ZSTUBS + ["model: fresh-output CipherSuiteProvider (no log)"], timeout_s=3000,
+_CUT = ["stub: mls_rs::group::key_schedule::kdf_expand_with_label -> provider.kdf_expand(secret, '', len) (label encoding is C13's subject, cut here)"]
+H("c05_ratchet_request_all_generations", "c05_ratchet_request.rs", ["C05", "C04"], "quick", fs="fs_noooo", unwind=5, mem="M",
+  stubs=ZSTUBS + _CUT + ["model: fresh-output CipherSuiteProvider (no log)"], timeout_s=900,
   what="get_message_key (build without out_of_order): past generation -> KeyMissing and ratchet unchanged; beyond current+1024 -> "
        "InvalidFutureGeneration and unchanged; otherwise the key of exactly that generation, ratchet advanced past it, second request refused",
   symbolic="ratchet generation and requested generation: any u32 (gap <= 2 or outside the window)", bounds="window interior gap 3..1024 outside",
   assumes=["ratchet generation <= 2^32-1027 (no overflow of generation + 1024)", "gap to the requested generation is <= 2 or > 1024 or negative"])
-H("c05_ratchet_request_beyond_window_refused", "c05_ratchet_request.rs", ["C05", "C04"], "thorough", fs="fs_noooo", unwind=24, mem="M",
-  stubs=ZSTUBS, timeout_s=1800,
+H("c05_ratchet_request_beyond_window_refused", "c05_ratchet_request.rs", ["C05", "C04"], "quick", fs="fs_noooo", unwind=5, mem="M",
+  stubs=ZSTUBS + _CUT, timeout_s=900,
   what="every request more than 1024 generations ahead is refused and leaves (secret, generation) unchanged",
   symbolic="ratchet generation, requested generation any u32 beyond the window", bounds="all", assumes=["generation <= 2^32-2051"])
 
@@ -391,7 +402,7 @@ CLAIMS["C16"] = dict(text="Bounded model checking of the observer's admission ga
 CLAIMS["C11"] = dict(text="One clause: a handshake message (proposal or commit, public or private) is admitted only for the current epoch - decided for all "
                           "epochs/versions/group ids. The pending-commit state machine is outside.", note=_NOTE)
 CLAIMS["C04"] = dict(text="One clause, one build: failed key lookups (past generation / beyond the window) leave the ratchet bit-identical - build without "
-                          "out_of_order, all u32 generation pairs (thorough tier only has the solver harness; quick tier runs the window-refusal harness).", note=_NOTE)
+                          "out_of_order, all u32 generation pairs.", note=_NOTE)
 
 
 NOT_APPLICABLE.update({
